@@ -45,6 +45,7 @@ from maestrowf.datastructures.core import (
     StudyStep,
 )
 from maestrowf.datastructures import environment
+from maestrowf.datastructures.core.study import SOURCE
 
 logger = logging.getLogger(__name__)
 
@@ -335,6 +336,13 @@ class YAMLSpecification(Specification):
                     step,
                     schema,
                 )
+
+                # '_source' is the root node the study's graph adds itself.
+                if name == SOURCE:
+                    raise ValueError(
+                        "Step name '{}' is reserved for the root of the "
+                        "study graph.".format(name)
+                    )
 
                 # Step names key the study's graph: a repeated name would
                 # silently drop the later step.
